@@ -22,6 +22,9 @@ def describe(r):
 def pitch_level(run, a):
     run.add_tlc(tlc.run_tlc('MC_PitchAgn', workers=4, timeout=600))
     recs = pitchrec.record_agnostic()
+    if a.replay_case:
+        flat.validate_flat(run, 'Trace_Pitch', flat.fresh_record(recs, a.replay_case['case']['record'], ('op', 'k', 'mark', 'l', 'a', 'o')), describe)
+        return
 
     def corrupt(rs):
         i = next(i for i, r in enumerate(rs) if r['a'] == -1 and r['ok'])
@@ -45,11 +48,13 @@ def main():
     run.rule = ('pitch level exhaustive: 7 clefs x {none,v,vv,^,^^} x 7 letters x accidentals -2..2 x octaves 0..8; document level: '
                 'generated documents with clef changes, chords and splits exported in akern/aekern; non-trivial = records under a '
                 'non-G2 clef or an octave-marked clef, and documents with >= 2 different clefs in force')
-    if a.replay_case and 'seed' in a.replay_case['case']:
+    if a.replay_case and a.replay_case['case'].get('replay'):
         run.add_tlc(tlc.run_tlc('MC_PitchAgn', workers=4, timeout=600))
-        docs.validate_sessions(run, [dp.sess_c10(a.replay_case['case']['seed'], plain_acc=False)], relevant=docs.relevant_for(run.pid))
+        docs.validate_sessions(run, docs.replay_sessions(a.replay_case), relevant=docs.relevant_for(run.pid))
         return run.finish()
     pitch_level(run, a)
+    if a.replay_case:
+        return run.finish()
     # document level: akern / aekern exports of documents with clef changes, chords and splits
     n = 150 if a.tier == 'quick' else 3000
     sess = docs.build_sessions(dp.sess_c10, [a.seed * 1000003 + i for i in range(n)], plain_acc=False)
